@@ -194,6 +194,14 @@ def mod(name):
 MODS = ["none", "scale", "limitdeltas", "limitweights", "targetvol", "cash", "closedead", "oob"]
 
 
+class TailUpdate(object):
+    """a redundant refresh at the end of a stack (the loop refreshes after the algos anyway)"""
+
+    def __call__(self, target):
+        target.root.update(target.now)
+        return True
+
+
 class LazyRebalance(object):
     """a user-written rebalancer that batches its trades with update=False and leaves the refresh
     to the backtest loop ("need update after to save weights, values and such")"""
@@ -260,6 +268,10 @@ def stack(st, idx):
     out += weigh(st.get("weigh", "equal"))
     out += mod(st.get("mod", "none"))
     out += rebal(st.get("rebal", "rebalance"))
+    if st.get("tail_update"):
+        tu = TailUpdate()
+        tu.run_always = True
+        out += [tu]
     return out
 
 
